@@ -616,6 +616,7 @@ pub fn run(ctx: &mut Ctx) {
     ctx.campaign("honest", CampaignCfg::new(t.pick(800, 60_000)).shards(16), || mitm_strategy(false), run_mitm);
     ctx.campaign("mitm", CampaignCfg::new(t.pick(2_500, 180_000)).shards(16), || mitm_strategy(true), run_mitm);
     ctx.campaign("rogue", CampaignCfg::new(t.pick(3_000, 240_000)).shards(16), rogue_strategy, run_rogue);
+    ctx.campaign("rogue-at-a-real-listener", CampaignCfg::new(t.pick(400, 8_000)).shards(16).shrink_iters(6), super::c01_nodes::strategy, super::c01_nodes::run_case);
     ctx.campaign("dialed-peer-mismatch", CampaignCfg::new(t.pick(160, 3_000)).shards(16).shrink_iters(6), dialed_strategy, run_dialed);
     // exhaustive single-bit flips over all three messages of a few sessions (thorough: 20 sessions)
     let mut flips: Vec<MitmCase> = Vec::new();
